@@ -237,6 +237,10 @@ Section Names.
 
   (* guards *)
   Definition guard_F13a (l : list op) : bool := forallb (fun o => Nat.leb (length (o_tags o)) 1) l.   (* single_tag *)
+  (* F13c: no schema class name used in a signature contains the text AsyncIterator (both scanners
+     decide "async generator" by searching that text) *)
+  Definition guard_F13c (names : list str) : bool :=
+    forallb (fun n => negb (containsb k_AsyncIterator n)) names.
   Definition guard_F13b (l : list op) : bool :=                                                   (* tags_spelled_uniformly *)
     let ts := map first_tag l in
     forallb (fun a => forallb (fun b => negb (str_eqb (tag_key a) (tag_key b)) || str_eqb a b) ts) ts.
